@@ -687,6 +687,10 @@ func main() {
 		}
 		spath := filepath.Join(dir, "spec.json")
 		_ = os.WriteFile(spath, specJSON, 0o644)
+		for name, doc := range sp.Siblings() {
+			b, _ := json.Marshal(doc)
+			_ = os.WriteFile(filepath.Join(dir, name), b, 0o644)
+		}
 		specIn := map[string]interface{}{"spec": json.RawMessage(specJSON), "custom_principal": customPrincipal}
 		sargs := []string{"generate", "server", "-q", "-A", "verifapi", "-f", spath, "-t", dir}
 		cargs := []string{"generate", "client", "-q", "-A", "verifapi", "-f", spath, "-t", dir}
